@@ -3,6 +3,7 @@
 //! (2880-byte blocks, NAXIS1/NAXIS2 vs data written) and the data bytes compared with the
 //! extracted byte-level model Serial.encode_rows (theorems C07_fits_*); writer fed by lazy
 //! operators of inexact size hint must produce the same bytes as the in-memory writer.
+use crate::asciix;
 use crate::common::*;
 use crate::dispatch;
 use crate::iters::*;
@@ -64,6 +65,62 @@ fn roundtrips<T: Idx, QQ: Inst<T>>(m: &Moc) -> Vec<(String, Result<(u8, Vec<(u64
     }))));
   }
   out
+}
+
+/// the ASCII documents the implementation writes, per (fold, use_range_len)
+fn ascii_docs<T: Idx, QQ: Inst<T>>(m: &Moc) -> Vec<(Option<usize>, bool, Result<String, String>)> {
+  let mm: RangeMOC<T, QQ> = to_range_moc(m);
+  let mut out = Vec::new();
+  for fold in [None, Some(0usize), Some(7), Some(10), Some(24), Some(80)] {
+    for use_len in [false, true] {
+      let mm2 = mm.clone();
+      let r = catch(move || {
+        let mut buf: Vec<u8> = Vec::new();
+        to_ascii_ivoa((&mm2).into_range_moc_iter().cells().cellranges(), &fold, use_len, &mut buf).map_err(|e| format!("write error {:?}", e))?;
+        String::from_utf8(buf).map_err(|e| format!("utf8 {:?}", e))
+      });
+      out.push((fold, use_len, match r { Ok(x) => x, Err(p) => Err(p) }));
+    }
+  }
+  out
+}
+
+/// character-level tie: writer vs Model/AsciiCodec.v to_ascii, reader vs from_ascii on the written
+/// documents and on mutations of them
+fn ascii_exact(rep: &mut Report, orc: &mut Oracle, rng: &mut Rng, m: &Moc, n_mut: usize) -> bool {
+  let mut ok = true;
+  let docs = dispatch!(m.q, m.w, |T, QQ| ascii_docs::<T, QQ>(m));
+  for (fold, use_len, r) in docs {
+    rep.evaluations += 1;
+    rep.count("ascii-writer-exact");
+    let req = format!("ASCW {} {} {} {} {} {}", m.q.c(), m.w, m.d, fold.map(|x| x.to_string()).unwrap_or("-".to_string()), use_len as u8, ranges_str(&m.r));
+    let model = orc.ask(&req);
+    let model_hex = model.split_whitespace().nth(1).unwrap_or("").to_string();
+    match r {
+      Err(e) => {
+        ok = false;
+        rep.violation("ASCII writer fails", &format!("{} # document of SER {}", req, m.line()), &e, &model, "C07_ascii_moc_roundtrip");
+      }
+      Ok(s) => {
+        if !model.starts_with("OK") || asciix::hex(s.as_bytes()) != model_hex {
+          ok = false;
+          rep.corr_break("to_ascii_ivoa writes other characters than the character-level model", &format!("{} # SER {}", req, m.line()), &format!("{:?}", s), &format!("{:?}", String::from_utf8_lossy(&unhex(&model_hex))), "src/deser/ascii.rs to_ascii_ivoa == Model/AsciiCodec.v to_ascii (C07_ascii_moc_roundtrip)");
+        }
+        let c = m.q.c();
+        ok &= dispatch!(m.q, m.w, |T, QQ| asciix::compare_reader_1d::<T, QQ>(rep, orc, c, m.w, &s, "written"));
+        if fold == Some(10) && !use_len {
+          for d in asciix::mutations(rng, &s, n_mut) {
+            ok &= dispatch!(m.q, m.w, |T, QQ| asciix::compare_reader_1d::<T, QQ>(rep, orc, c, m.w, &d, "mutated"));
+          }
+        }
+      }
+    }
+  }
+  ok
+}
+fn unhex(h: &str) -> Vec<u8> {
+  if h == "-" { return vec![]; }
+  (0..h.len() / 2).filter_map(|i| u8::from_str_radix(&h[2 * i..2 * i + 2], 16).ok()).collect()
 }
 
 struct FitsObs {
@@ -321,11 +378,21 @@ pub fn run(ctx: &Ctx) -> Report {
           let dd = if i % 2 == 0 { d } else { (d + 1 + (i as u8 % 3)).min(md) };
           let m = Moc { q, w, d: dd, r: l.iter().map(|(s, e)| ((s + off) << sh, (e + off) << sh)).collect() };
           check_moc(&mut rep, &mut orc, &m);
+          if i % 3 == 0 {
+            ascii_exact(&mut rep, &mut orc, &mut rng, &m, 1);
+          }
         }
       }
       for dd in [0u8, 1, md / 2, md] {
-        check_moc(&mut rep, &mut orc, &Moc { q, w, d: dd, r: vec![] });
-        check_moc(&mut rep, &mut orc, &Moc { q, w, d: dd, r: vec![(0, q.n_cells_max(w))] });
+        for mm in [Moc { q, w, d: dd, r: vec![] }, Moc { q, w, d: dd, r: vec![(0, q.n_cells_max(w))] }] {
+          check_moc(&mut rep, &mut orc, &mm);
+          ascii_exact(&mut rep, &mut orc, &mut rng, &mm, 2);
+        }
+      }
+      // hand-written documents around every branch of the reader
+      let c = q.c();
+      for doc in asciix::crafted_1d(w, md, q.n_cells_max(w)) {
+        dispatch!(q, w, |T, QQ| asciix::compare_reader_1d::<T, QQ>(&mut rep, &mut orc, c, w, &doc, "crafted"));
       }
     }
   }
@@ -344,6 +411,7 @@ pub fn run(ctx: &Ctx) -> Report {
       m.d = rng.range(d as u64, md as u64) as u8;
     }
     check_moc(&mut rep, &mut orc, &m);
+    ascii_exact(&mut rep, &mut orc, &mut rng, &m, 4);
     rep.count(&format!("random:{}{}", q.c(), w));
   }
   rep.notes.push(format!("oracle calls: {}", orc.calls));
